@@ -3,6 +3,8 @@ package c15
 import (
 	"fmt"
 	"os"
+	"strconv"
+	"strings"
 	"time"
 
 	"Havoc/pkg/agent"
@@ -148,6 +150,112 @@ func runTablesThreeClients(r *ev.Run) {
 		r.Outcome("tables3/" + o)
 	}
 	r.Extra["tables_scenario_three_clients"] = map[string]any{"name": name, "executions": t.Executions, "choice_points": t.Points, "preemption_bound": bound}
+	r.Eval(int(t.Executions))
+	r.AddStates(t.Points, t.Points, t.Executions)
+}
+
+// runTablesTwoHandshakes: two clients complete their SOCKS handshake on one proxy at the
+// same time (two handler goroutines of the accept loop register their socket with the
+// proxy and the agent concurrently), then the operator clears the proxies.  Oracle on
+// every schedule: after the clear no socket is left in any table and both client
+// connections are closed ("closing either side removes the socket everywhere").  The
+// free-running race pass reported the proxy's client list (Socks.Clients) as a racy
+// location no other scenario explored; it is in this scenario's focus.
+func runTablesTwoHandshakes(r *ev.Run, shard, nshards int) {
+	bound := 1
+	if r.Thorough() {
+		bound = 2
+	}
+	if v, err := strconv.Atoi(os.Getenv("VERIF_C15_BOUND")); err == nil {
+		bound = v // experiments only
+	}
+	r.Bounds["preemption_bound_two_handshakes"] = bound
+	dl := 60 * time.Second
+	if d, err := time.ParseDuration(os.Getenv("VERIF_C15_DEADLINE")); err == nil {
+		dl = d
+	}
+	if r.Thorough() {
+		dl = 12 * time.Minute
+	}
+	name := "1 proxy: clients A and B finish their handshake at the same time, then socks clear"
+	outcomes := map[string]bool{}
+	t := explore.Tree{Bound: bound, Deadline: time.Now().Add(dl)}
+	t.RunShard(shard, nshards, func(c *explore.Chooser) {
+		// quick: scheduling points at the proxy's client list only (the location the race pass
+		// named), every schedule with at most one preemption there; thorough: the full focus
+		focus := []string{"Clients"}
+		if r.Thorough() {
+			focus = []string{"SocksCli", "SocksSvr", "Connected", "Conn", "Clients"}
+		}
+		se := newSess(c, 60000, focus...)
+		defer se.close()
+		conns := []*fake.Conn{fake.NewConn("A"), fake.NewConn("B")}
+		se.s.SetExplore(false)
+		se.s.Spawn("setup+operator", func() {
+			se.socksCmd("socks add", "1080")
+			se.s.Settle()
+			se.s.SetExplore(true)
+			for i, cn := range conns {
+				cn.Feed([]byte{5, 1, 0})
+				cn.Feed(request{5, 1, 0, 1, addrFor(1, 0), uint16(81 + i)}.bytes())
+				se.lsts["0.0.0.0:1080"].Push(cn)
+			}
+			se.s.Block("operator waits until both sockets are registered", func() bool {
+				n := 0
+				for _, t := range se.a.JobQueue {
+					if t.Command == agent.COMMAND_SOCKET {
+						n++
+					}
+				}
+				if os.Getenv("VERIF_C15_STEPS") != "" && se.s.Steps() > 300 && se.s.Steps() < 304 {
+					fmt.Fprintln(os.Stderr, "PRED n=", n, "queue", len(se.a.JobQueue), "cli", len(se.a.SocksCli))
+				}
+				return n >= 2
+			})
+			se.socksCmd("socks clear", "")
+		})
+		se.s.Run()
+		se.s.Panics = append(se.s.Panics, se.reqFaults...)
+		benign := se.s.Deadlock && se.s.BlockedOnly("accept ", "read ")
+		obs := fmt.Sprintf("svr=%d cli=%d A.closed=%v B.closed=%v", len(se.a.SocksSvr), len(se.a.SocksCli), conns[0].Closed, conns[1].Closed)
+		if os.Getenv("VERIF_C15_STEPS") != "" && se.s.Steps() > 2000 {
+			fmt.Fprintln(os.Stderr, "LONG", se.s.Steps(), "horizon", se.s.HorizonHit, "deadlock", se.s.Deadlock, obs, c.Choices()[:40], strings.Join(se.s.Trace[20:100], " | "))
+			os.Exit(0)
+		}
+		if os.Getenv("VERIF_C15_STEPS") != "" && t.Executions < 0 {
+			fmt.Fprintln(os.Stderr, "STEPS", se.s.Steps(), "horizon", se.s.HorizonHit, "trace", len(se.s.Trace), strings.Join(tail(se.s.Trace, 60), " | "))
+		}
+		outcomes[obs] = true
+		detail := map[string]any{"scenario": name, "choices": c.Choices(), "schedule_tail": tail(se.s.Trace, 60), "observed": obs}
+		switch {
+		case len(se.s.Panics) > 0:
+			r.Violate("tables/panic/"+ev.Normalize(se.s.Panics[0]), se.s.Panics[0], detail)
+		case se.s.Deadlock && !benign:
+			r.Violate("tables/deadlock/"+lockOf(se.s.DeadlockWhy), se.s.DeadlockWhy, detail)
+		case se.s.HorizonHit && len(se.a.SocksSvr) == 0 && len(se.a.SocksCli) != 0:
+			r.Violate("tables/leftover-after-clear", "after socks clear a socket is still in the client table (its relay goroutine polls it for ever): "+obs, detail)
+		case se.s.HorizonHit:
+			r.Violate("tables/livelock", "threads still spinning at the horizon", detail)
+		case len(se.s.Held()) > 0 || !mutexesFree(se.a):
+			r.Violate("tables/lock-held", fmt.Sprint(se.s.Held()), detail)
+		case openListeners(se) != "":
+			r.Violate("tables/listener-outlives-proxy", "listener still open: "+openListeners(se), detail)
+		case len(se.a.SocksSvr) != 0 || len(se.a.SocksCli) != 0:
+			r.Violate("tables/leftover-after-clear", "after socks clear a socket is still in the client table: "+obs, detail)
+		case !conns[0].Closed || !conns[1].Closed:
+			r.Violate("tables/client-connection-open-after-clear", "after socks clear a client connection is still open: "+obs, detail)
+		}
+	})
+	if t.Err != nil {
+		r.Violate("harness/nondeterminism", t.Err.Error(), nil)
+	}
+	if t.Capped {
+		r.NotExhaustive(fmt.Sprintf("two-handshakes table scenario (shard %d of %d) stopped by the internal deadline after %d executions", shard, nshards, t.Executions))
+	}
+	for o := range outcomes {
+		r.Outcome("tables4/" + o)
+	}
+	r.Extra[fmt.Sprintf("tables_scenario_two_handshakes_shard_%d_of_%d", shard, nshards)] = map[string]any{"name": name, "executions": t.Executions, "choice_points": t.Points, "preemption_bound": bound}
 	r.Eval(int(t.Executions))
 	r.AddStates(t.Points, t.Points, t.Executions)
 }
